@@ -9,6 +9,9 @@ const (
 	DefaultMaxMessageSize = 1024 * 512
 	CloseTimeout          = 5 * time.Second
 	DialTimeout           = 5 * time.Second
+
+	// Upper bound for the size of the HTTP response head of the opening handshake.
+	maxHandshakeResponseLength = 64 * 1024
 )
 
 type Role uint8
